@@ -127,16 +127,31 @@ def run(ck):
     nrounds = ck.scale(20, 400)
     for _ in range(nrounds):
         sh = shapes[rng.integers(len(shapes))]
-        a = rng.integers(0, 8, size=sh, dtype=np.uint8)
-        b_shape = sh if rng.random() < 0.6 or len(sh) == 0 else sh[-1:]
+        # operand shapes that broadcast to `sh` in EVERY direction numpy allows: either operand may have size-1 axes and / or lack
+        # leading axes (x2 smaller than x1, x1 smaller than x2, and both smaller than the result, e.g. (3,1) with (1,5))
+        def sub_shape(full):
+            t = tuple(1 if rng.random() < 0.35 else d for d in full)
+            return t[int(rng.integers(0, len(t) + 1)):] if rng.random() < 0.4 else t
+        mode = rng.random()
+        if mode < 0.35 or len(sh) == 0:
+            a_shape, b_shape = sh, sh
+        elif mode < 0.55:
+            a_shape, b_shape = sh, sub_shape(sh)
+        elif mode < 0.75:
+            a_shape, b_shape = sub_shape(sh), sh
+        else:
+            a_shape, b_shape = sub_shape(sh), sub_shape(sh)
+        a = rng.integers(0, 8, size=a_shape, dtype=np.uint8)
         b = rng.integers(0, 8, size=b_shape, dtype=np.uint8)
+        ck.count(1, 'wrapper-shapes:' + ('same' if a_shape == b_shape else 'x2-smaller' if np.broadcast_shapes(a_shape, b_shape) == a_shape else
+                                         'x1-smaller' if np.broadcast_shapes(a_shape, b_shape) == b_shape else 'both-smaller'))
         for op, fn in (('and', logic.mv_and), ('or', logic.mv_or), ('xor', logic.mv_xor)):
-            exp = np.vectorize(lambda x, y: SPEC[op]([int(x), int(y)]), otypes=[np.uint8])(a, b) if a.ndim else \
+            exp = np.vectorize(lambda x, y: SPEC[op]([int(x), int(y)]), otypes=[np.uint8])(a, b) if (a.ndim or b.ndim) else \
                 np.uint8(SPEC[op]([int(a), int(b)]))
             for use_out in (False, True):
                 key = f'mv_{op}:out=' if use_out else f'mv_{op}'
                 try:
-                    if a.ndim == 0:
+                    if a.ndim == 0 and b.ndim == 0:
                         if use_out:
                             continue
                         r = fn(np.array(a), np.array(b))
